@@ -827,7 +827,7 @@ impl Property for P {
         "fault_enumeration"
     }
     fn rule(&self) -> String {
-        "fault enumeration into every server-facing call (try_read_100, try_response, read in chunked / length / close framing): (i) every byte string over {0 5 a f ; : SP CR LF x 0xff} up to length L, offered whole and as a growing window; (ii) every sequence of up to K protocol tokens (HTTP/1.1, status codes, CRLF, CR, LF, field names, chunked, close, ...); (iii) every byte value at eight positions where httparse and the http crate could disagree and inside chunk framing; (iv) grammar-aware mutations (bit flips, deletions, duplications, splices, oversize numbers, stray CR/LF, >128 fields, 64 KiB names, 100 KB values, conflicting framing fields, malformed Locations, truncation, floods of interim responses / repeated heads / repeated field lines) of valid exchanges of every request configuration under random schedules; (v) all five close conditions at once. Monitors on every call: panic capture, in-crate loop tick budget (bounded restatement of 'hangs'), consumed <= offered, produced <= space, produced bytes an in-order copy of consumed bytes (equality for length/close framing), and state-advancing calls afterwards must not panic. class = call x Ok/Err variant, mutation kind, outcome.".into()
+        "fault enumeration into every server-facing call (try_read_100, try_response, read in chunked / length / close framing): (i) every byte string over {0 5 a f ; : SP CR LF x 0xff} up to length L, offered whole and as a growing window; (ii) every sequence of up to K protocol tokens (HTTP/1.1, status codes, CRLF, CR, LF, field names, chunked, close, ...); (iii) every byte value at eight positions where httparse and the http crate could disagree and inside chunk framing; (iv) grammar-aware mutations (bit flips, deletions, duplications, splices, oversize numbers, stray CR/LF, >128 fields, 64 KiB names, 100 KB values, conflicting framing fields, malformed Locations, truncation, floods of interim responses / repeated heads / repeated field lines) of valid exchanges of every request configuration under random schedules; (v) all five close conditions at once. Monitors on every call: panic capture, in-crate loop tick budget (bounded restatement of 'hangs'), consumed <= offered, produced <= space, produced bytes an in-order copy of consumed bytes (equality for length/close framing), and state-advancing calls afterwards must not panic. class = call x Ok/Err variant, mutation kind, outcome. deep-input: 300..40000 copies of one unit in a single buffer, each cell in a child process (a child killed by a signal is a violation). redirect-calls: 8 request shapes (two with Expect), the flow handed out is advanced and written. Every other hostile input meets a caller that opted in to truncated redirect heads.".into()
     }
     fn assumptions(&self) -> Vec<String> {
         vec![
